@@ -79,6 +79,9 @@ def declare(w):
     if co not in core.COERCE_HOOKS:
         core.COERCE_HOOKS[:] = [h for h in core.COERCE_HOOKS if getattr(h, "__name__", "") != "co"] + [co]
 
+    # a spec value is `True` (bare key) or a text: the pair's truth is that value's truth (the empty text is falsy)
+    w.call_hooks[("truth", "tuple")] = lambda ex, v, st: z3.Or(v.v[0].v, slen(v.v[1].v) > 0) if v.ty == XVAL else None
+
     # --- python-level plumbing of the XSpec object model -----------------------
     def xspec_setattr(ex, recv, attr, v, st, sink):
         keys = st.heap.get(recv, "$keys")
@@ -117,7 +120,12 @@ def declare(w):
 
     w.call_hooks[("display", "dict")] = empty_dict
 
+    wssplit = z3.Function("wssplit", z3.StringSort(), z3.SeqSort(z3.StringSort()))      # s.split(): the whitespace-separated words (a function of s; nothing else is used)
+
     def m_split(ex, d, args, kwargs, st, sink, node):
+        if not args and not kwargs:
+            yield st, SV(SEQ(STR), wssplit(d.recv.v))
+            return
         sep = z3.simplify(args[0].v)
         if not (z3.is_string_value(sep) and sep.as_string() == "//"):
             raise Unsupported("str.split with a separator other than '//'")
@@ -636,4 +644,71 @@ def declare_makegateway(w):
             c.verify_only = True
             w.add(c, variant=f"{t}.{cfg}")
     w.mk_pieces = pieces
+    return w
+
+
+# ======================================================================================
+# command lines that start an interpreter (C15): the remote command is `<python= value, verbatim> -c "<bootstrap line>"`
+# ======================================================================================
+def declare_command_lines(w):
+    """world `cmd`: ssh_args / vagrant_ssh_args / popen_args over the XSpec model.  python= is a COMMAND (an interpreter with options, e.g. `python3 -S -E`): it reaches
+    the remote shell verbatim, so that its words are split there; the bootstrap line follows `-c` as one double-quoted word."""
+    declare(w)
+    GIO = "execnet.gateway_io"
+    BOOT = z3.StringVal("import sys;exec(eval(sys.stdin.readline()))")
+    wssplit = z3.Function("wssplit", z3.StringSort(), z3.SeqSort(z3.StringSort()))
+    shsplit = z3.Function("shsplit", z3.StringSort(), z3.SeqSort(z3.StringSort()))      # shlex.split(path)
+    att = lambda h, sp: h.sv("XSpec", sp, "$attr")
+    has = lambda h, sp, n: z3.Select(att(h, sp).v[0], z3.StringVal(n))
+    bare = lambda h, sp, n: z3.Select(att(h, sp).v[1][0], z3.StringVal(n))
+    txt = lambda h, sp, n: z3.Select(att(h, sp).v[1][1], z3.StringVal(n))
+    S = lambda *xs: z3.Concat(*[z3.Unit(x if z3.is_expr(x) else z3.StringVal(x)) for x in xs]) if len(xs) > 1 else z3.Unit(xs[0] if z3.is_expr(xs[0]) else z3.StringVal(xs[0]))
+    w.externals["builtins.str"] = lambda ex, args, kwargs, st, sink, node: iter([(st, args[0] if args[0].ty.kind == "str" else core.fresh(STR, "str"))])
+    w.externals["shlex.split"] = lambda ex, args, kwargs, st, sink, node: iter([(st, SV(SEQ(STR), shsplit(core.coerce(args[0], STR).v)))])
+    # shlex.quote(s): s itself when it consists of safe characters only, otherwise a single-quoted word (so a command with options becomes ONE word)
+    shquote = z3.Function("shquote", z3.StringSort(), z3.StringSort())
+    shsafe = z3.Function("shsafe", z3.StringSort(), z3.BoolSort())
+
+    def ax_shquote(t):
+        x = t.arg(0)
+        return [z3.Implies(shsafe(x), t == x), z3.Implies(z3.Not(shsafe(x)), z3.And(z3.PrefixOf(z3.StringVal("'"), t), slen(t) >= slen(x) + 2)),
+                z3.Implies(z3.Or(z3.Contains(x, z3.StringVal(" ")), slen(x) == 0), z3.Not(shsafe(x)))]
+
+    ax_shquote.names = ["shquote"]
+    w.axiom_providers.append(ax_shquote)
+    w.externals["shlex.quote"] = lambda ex, args, kwargs, st, sink, node: iter([(st, SV(STR, shquote(core.coerce(args[0], STR).v)))])
+    w.externals["sys.executable"] = SV(STR, z3.String("sys_executable"))
+    w.externals["sys.platform"] = mk_str("linux")
+
+    def py(h, sp):
+        # `spec.python or "python"`: the given command, or plain "python" when it is absent or empty
+        return z3.If(z3.And(has(h, sp, "python"), z3.Not(bare(h, sp, "python")), slen(txt(h, sp, "python")) > 0), txt(h, sp, "python"), z3.StringVal("python"))
+
+    def remotecmd(h, sp):
+        return z3.Concat(py(h, sp), z3.StringVal(' -c "'), BOOT, z3.StringVal('"'))
+
+    valued = lambda a, h: [("spec", a.spec != 0), ("python-and-config-are-texts", z3.And(*[z3.Implies(has(h, a.spec, n), z3.Not(bare(h, a.spec, n))) for n in ("python", "ssh_config")]))]
+    cfg = lambda h, sp: z3.If(has(h, sp, "ssh_config"), S("-F", txt(h, sp, "ssh_config")), z3.Empty(z3.SeqSort(z3.StringSort())))
+    w.add(Contract(f"{GIO}:ssh_args", {"spec": REF("XSpec")}, requires=valued,
+                   cases=[Case("ok", restype=SEQ(STR), when=lambda a, h: z3.And(has(h, a.spec, "ssh"), z3.Not(bare(h, a.spec, "ssh"))),
+                               post=lambda a, h, h2, r: [r == z3.Concat(S("ssh", "-C"), cfg(h, a.spec), wssplit(txt(h, a.spec, "ssh")), z3.Unit(remotecmd(h, a.spec)))]),
+                          Case("no-host", "raise", "AssertionError", when=lambda a, h: z3.Not(has(h, a.spec, "ssh"))),
+                          Case("host-without-value", "raise", "AttributeError", when=lambda a, h: z3.And(has(h, a.spec, "ssh"), bare(h, a.spec, "ssh")))],
+                   props=["C15"]))
+    w.add(Contract(f"{GIO}:vagrant_ssh_args", {"spec": REF("XSpec")}, requires=lambda a, h: valued(a, h) + [("host-is-a-text", z3.Implies(has(h, a.spec, "vagrant_ssh"), z3.Not(bare(h, a.spec, "vagrant_ssh"))))],
+                   cases=[Case("ok", restype=SEQ(STR), when=lambda a, h: has(h, a.spec, "vagrant_ssh"),
+                               post=lambda a, h, h2, r: [r == z3.Concat(S("vagrant", "ssh", txt(h, a.spec, "vagrant_ssh"), "--", "-C"), cfg(h, a.spec), z3.Unit(remotecmd(h, a.spec)))]),
+                          Case("no-host", "raise", "AssertionError", when=lambda a, h: z3.Not(has(h, a.spec, "vagrant_ssh")))],
+                   props=["C15"]))
+
+    def popen_post(a, h, h2, r):
+        sp = a.spec
+        given = z3.And(has(h, sp, "python"), slen(txt(h, sp, "python")) > 0)
+        head = z3.If(given, shsplit(txt(h, sp, "python")), z3.Unit(z3.String("sys_executable")))       # the command's words, or this interpreter
+        dwb = z3.And(has(h, sp, "dont_write_bytecode"), z3.Or(bare(h, sp, "dont_write_bytecode"), slen(txt(h, sp, "dont_write_bytecode")) > 0))
+        return [r == z3.Concat(head, S("-u"), z3.If(dwb, S("-B"), z3.Empty(z3.SeqSort(z3.StringSort()))), S("-c", BOOT))]
+
+    w.add(Contract(f"{GIO}:popen_args", {"spec": REF("XSpec")}, requires=valued, cases=[Case("ok", restype=SEQ(STR), post=popen_post)], props=["C15"]))
+    w.add(Contract(f"{GIO}:shell_split_path", {"path": STR}, cases=[Case("ok", restype=SEQ(STR), post=lambda a, h, h2, r: [r == shsplit(a.path)])], trusted=True,
+                   note="shlex.split (POSIX; the Windows backslash replacement is not taken)"))
     return w
